@@ -130,6 +130,8 @@ def classify(case, impl, model, spec):
 def l1_extra(case, impl_obs):
     """parts of the property that are predicates on the implementation's own output: no element deeper than
     ZIX_BTREE_MAX_HEIGHT levels; comparisons per find within h*(floor(log2 L)+1) with h from the height law"""
+    if impl_obs.startswith("CRASH") or impl_obs.startswith("ASSERT-BUILD-DIFFERS"):
+        return False          # abort / sanitizer report / failed assertion: never acceptable, whatever the spec says
     if case.endswith(" cfg"):
         return True
     page = bt.page_of(case)
